@@ -45,6 +45,10 @@ def _concat_sequence(fi, D, repo):
 
 
 def run(repo, rep, tier):
+    rep.rule("R-C08-7", "(shared with C05) direction bin widths are taken circularly: the width enters the variance the regridding conserves and the "
+                        "energy <-> density conversion of the writers / readers")
+    from .c05 import circular_width
+    circular_width(repo, rep, "R-C08-7")
     rep.rule("R-C08-6", "every parameter of the functions behind this property is read (regridding): none is accepted and then ignored, and no control parameter (cutoff, limit, tolerance, window, count, switch) is replaced by another value before use (coercion and default filling aside)")
     from .shared import unused_parameters
     unused_parameters(repo, rep, "R-C08-6", ("wavespectra.core.utils.regrid_spec", "wavespectra.core.utils.interp_spec", "wavespectra.core.utils.unique_indices", "wavespectra.specarray.SpecArray.interp", "wavespectra.specarray.SpecArray.interp_like", "wavespectra.specarray.SpecArray.rotate"), "regridding")
